@@ -31,6 +31,39 @@ COMMENT_SEPS = ["/*c*/", "/**c**/", "/***/", "/*c**/", "/****/", "--c\n", "/*;*/
 TOK = re.compile(r"'(?:[^'\\]|\\.|'')*'|\"(?:[^\"\\]|\\.)*\"|`[^`]*`|\d+\.\d+|\w+|<=>|<=|>=|<>|!=|<<|>>|&&|\|\||==|[^\w\s]", re.S)
 
 
+# (text with an extra clause / keyword / value, the same text without it): constructs of neighbouring SQL dialects that this grammar does not have, and
+# optional parts it does have.  Wherever the longer text is accepted, the extra part must be visible in the tree: the two trees may not be equal.
+EXTRA_PAIRS = [
+    ("ALTER TABLE t ADD c INT AFTER b", "ALTER TABLE t ADD c INT"), ("ALTER TABLE t ADD c INT FIRST", "ALTER TABLE t ADD c INT"),
+    ("ALTER TABLE t MODIFY c BIGINT NOT NULL AFTER zq1", "ALTER TABLE t MODIFY c BIGINT NOT NULL"), ("CREATE TABLE t (a INT, b INT AFTER a)", "CREATE TABLE t (a INT, b INT)"),
+    ("ALTER TABLE t ADD COLUMN c INT", "ALTER TABLE t ADD c INT"), ("CREATE TABLE t (a INT PRIMARY KEY)", "CREATE TABLE t (a INT)"),
+    ("CREATE TABLE t (a INT NOT NULL VISIBLE)", "CREATE TABLE t (a INT NOT NULL)"), ("CREATE TABLE t (a INT, CHECK (a > 0))", "CREATE TABLE t (a INT)"),
+    ("CREATE TEMPORARY TABLE t (a INT)", "CREATE TABLE t (a INT)"), ("CREATE EXTERNAL TABLE t (a INT)", "CREATE TABLE t (a INT)"),
+    ("CREATE TABLE t (a INT) PARTITION BY HASH (a)", "CREATE TABLE t (a INT)"), ("CREATE TABLE t (a INT) CLUSTERED BY (a) INTO 4 BUCKETS", "CREATE TABLE t (a INT)"),
+    ("SELECT a FROM t EXCEPT ALL SELECT b FROM u", "SELECT a FROM t EXCEPT SELECT b FROM u"), ("SELECT a FROM t INTERSECT ALL SELECT b FROM u", "SELECT a FROM t INTERSECT SELECT b FROM u"),
+    ("SELECT a FROM t MINUS ALL SELECT b FROM u", "SELECT a FROM t MINUS SELECT b FROM u"), ("SELECT a FROM t UNION DISTINCT SELECT b FROM u", "SELECT a FROM t UNION SELECT b FROM u"),
+    ("SELECT a FROM t UNION ALL SELECT b FROM u", "SELECT a FROM t UNION SELECT b FROM u"),
+    ("SELECT CASE WHEN a THEN 1 ELSE NULL END FROM t", "SELECT CASE WHEN a THEN 1 END FROM t"), ("SELECT CASE a WHEN 1 THEN 2 ELSE null END FROM t", "SELECT CASE a WHEN 1 THEN 2 END FROM t"),
+    ("SELECT CASE WHEN a THEN 1 ELSE (NULL) END FROM t", "SELECT CASE WHEN a THEN 1 END FROM t"),
+    ("SELECT a FROM t LIMIT 5 OFFSET 0", "SELECT a FROM t LIMIT 5"), ("SELECT a FROM t LIMIT 0, 5", "SELECT a FROM t LIMIT 5"),
+    ("SELECT a FROM t FOR UPDATE", "SELECT a FROM t"), ("SELECT a FROM t WINDOW w AS (ORDER BY a)", "SELECT a FROM t"), ("SELECT a FROM t LOCK IN SHARE MODE", "SELECT a FROM t"),
+    ("SELECT a FROM t TABLESAMPLE (10 PERCENT)", "SELECT a FROM t"), ("SELECT a FROM t x1 USE INDEX (i1)", "SELECT a FROM t x1"), ("SELECT a FROM t x1 FORCE INDEX (i1) WHERE a = 1", "SELECT a FROM t x1 WHERE a = 1"),
+    ("SELECT a FROM t GROUP BY a WITH ROLLUP", "SELECT a FROM t GROUP BY a"), ("SELECT a FROM t ORDER BY a NULLS LAST", "SELECT a FROM t ORDER BY a"), ("SELECT a FROM t ORDER BY a DESC", "SELECT a FROM t ORDER BY a"),
+    ("SELECT sum(a) OVER (PARTITION BY b RANGE BETWEEN 1 PRECEDING AND CURRENT ROW) FROM t", "SELECT sum(a) OVER (PARTITION BY b) FROM t"),
+    ("SELECT sum(a) OVER (PARTITION BY b ROWS BETWEEN 1 PRECEDING AND CURRENT ROW) FROM t", "SELECT sum(a) OVER (PARTITION BY b) FROM t"),
+    ("SELECT sum(a) FILTER (WHERE a > 1) FROM t", "SELECT sum(a) FROM t"), ("SELECT count(DISTINCT a) FROM t", "SELECT count(a) FROM t"), ("SELECT ALL a FROM t", "SELECT a FROM t"),
+    ("INSERT INTO t VALUES (1) ON DUPLICATE KEY UPDATE a = 1", "INSERT INTO t VALUES (1)"), ("INSERT INTO t (a) VALUES (1), (2)", "INSERT INTO t (a) VALUES (1)"),
+    ("INSERT OVERWRITE TABLE t PARTITION (dt = '1') IF NOT EXISTS SELECT a FROM u", "INSERT OVERWRITE TABLE t PARTITION (dt = '1') SELECT a FROM u"),
+    ("DELETE FROM t WHERE a = 1 LIMIT 3", "DELETE FROM t WHERE a = 1"), ("UPDATE t SET a = 1 ORDER BY b", "UPDATE t SET a = 1"), ("UPDATE LOW_PRIORITY t SET a = 1", "UPDATE t SET a = 1"),
+    ("DELETE QUICK FROM t WHERE a = 1", "DELETE FROM t WHERE a = 1"), ("DROP TABLE IF EXISTS t", "DROP TABLE t"), ("DROP TABLE t CASCADE", "DROP TABLE t"), ("TRUNCATE TABLE t PARTITION (dt = '1')", "TRUNCATE TABLE t"),
+    ("ANALYZE TABLE t COMPUTE STATISTICS NOSCAN", "ANALYZE TABLE t COMPUTE STATISTICS"), ("MSCK REPAIR TABLE t SYNC PARTITIONS", "MSCK REPAIR TABLE t"), ("SHOW TABLES LIKE 'x%'", "SHOW TABLES"),
+    ("SELECT a FROM t1 JOIN t2 ON t1.a = t2.a AND t1.b = t2.b", "SELECT a FROM t1 JOIN t2 ON t1.a = t2.a"), ("SELECT a FROM t1 LEFT OUTER JOIN t2 ON 1 = 1", "SELECT a FROM t1 LEFT JOIN t2 ON 1 = 1"),
+    ("SELECT CAST(a AS DECIMAL(10, 2)) FROM t", "SELECT CAST(a AS DECIMAL) FROM t"), ("SELECT CAST(a AS UNSIGNED INT) FROM t", "SELECT CAST(a AS INT) FROM t"), ("SELECT CAST(a AS SIGNED INT) FROM t", "SELECT CAST(a AS INT) FROM t"),
+    ("SELECT a COLLATE utf8_bin FROM t", "SELECT a FROM t"), ("SELECT INTERVAL 1 DAY + a FROM t", "SELECT 1 + a FROM t"), ("SELECT a FROM t WHERE b LIKE 'x' ESCAPE '|'", "SELECT a FROM t WHERE b LIKE 'x'"),
+    ("WITH RECURSIVE w AS (SELECT 1) SELECT 1 FROM w", "WITH w AS (SELECT 1) SELECT 1 FROM w"), ("SELECT a FROM t1 CROSS JOIN t2", "SELECT a FROM t1 JOIN t2"),
+]
+
+
 def bracket_item(ws, rng):
     """put one comment in front of a list separator and another behind the item that follows it: if the lexer let the first comment run on to the
     end of the second, `, item` would vanish and the rest would still be a statement"""
@@ -178,6 +211,24 @@ def run(run):
                               "oracle_verdict": "a stray token %r is accepted and leaves no trace in the tree" % key})
             n_acc += 1
     run.add_stream("stray tokens", len(sreqs), len(set(m[2] for m in smeta)), [{"text": smeta[0][2][:200]}] if smeta else [], extra={"accepted_with_trace": n_acc})
+    # (c) extra clauses: accepted => visible in the tree
+    ereqs = []
+    for a_, b_ in EXTRA_PAIRS:
+        for d in ("MYSQL", "HIVE"):
+            ereqs += [sqlgen.parse_request("statements", d, a_), sqlgen.parse_request("statements", d, b_)]
+    eim = core.run_impl(ereqs)
+    emo = core.run_model(ereqs)
+    dis += stmt.tie(run, "PARSE extra clauses", ereqs, emo, eim, [x for p_ in EXTRA_PAIRS for _ in (0, 1) for x in p_])
+    n_acc = 0
+    for k in range(0, len(ereqs), 2):
+        xa, xb = eim[k], eim[k + 1]
+        pa = EXTRA_PAIRS[(k // 2) // 2]
+        if xa.startswith("OK ["):
+            n_acc += 1
+            if xa == xb:
+                fails.append({"kind": "input", "stream": "extra clauses", "text": pa[0], "without": pa[1], "dialect": ereqs[k].split()[3], "request": ereqs[k],
+                              "oracle_verdict": "the text is accepted and parses to the same tree as the text without the extra part: %r vs %r" % (pa[0], pa[1])})
+    run.add_stream("extra clauses (accepted => visible in the tree)", len(ereqs), n_acc, [{"with": EXTRA_PAIRS[0][0], "without": EXTRA_PAIRS[0][1]}], extra={"pairs": len(EXTRA_PAIRS)})
     run.cov["rule"] = ("statements of harness/stgen.py with every identifier / literal renamed to a unique marker: marker in tree, exactly once in the text printed in the "
                        "statement's own dialect; a fresh name / string / number / quoted name inserted at sampled token boundaries: error or a tree containing it; models run on the same texts")
     stmt.conclude(run, proofs_ok, dis, fails, "Props/C08.v", "unique-renaming and stray-token oracles on the implementation")
